@@ -3,12 +3,12 @@ import json, os
 from vlib import core
 
 THEOREMS = ["Props.C12." + t for t in [
-    "marker_cfg_facts", "first_content_kept", "first_content_kept_history", "patches_only_appended", "dup_dropped", "conflict_renamed", "siblings_are_family", "sib_injective", "patch_goes_to_last", "unnamed_first_is_error", "feed_error_iff", "feed_never_panics_or_hangs", "nothing_lost", "names_unique", "old_witness_repaired", "scan_lossless", "patches_in_order", "markers_removed", "text_preserved", "replacer_order_irrelevant"]]
+    "marker_cfg_facts", "first_content_kept", "first_content_kept_history", "patches_only_appended", "dup_dropped", "conflict_renamed", "siblings_are_family", "sib_injective", "patch_goes_to_last", "unnamed_first_is_error", "feed_error_iff", "feed_never_panics_or_hangs", "nothing_lost", "names_unique", "old_witness_repaired", "scan_lossless", "patches_in_order", "markers_removed", "text_preserved", "replacer_order_irrelevant", "literal_keys_rendered", "patch_applied_at_literal_marker", "replacer_order_irrelevant_literal", "backend_emits_file_then_nameless_patch", "backend_pair_targets_own_file"]]
 
 PARTIAL = [
            dict(theorem="Props.C12.patches_in_order / markers_removed / text_preserved",
                 hypothesis="WordPoints cfg ps  -- every patch point of the file lies in the marker alphabet",
-                why="a patch whose point has bytes outside [$.0-9a-zA-Z_] makes the replacer act on text the regexp does not call a marker; with ')' in a point the output depends on Go map order (docs/C12.md)")]
+                why="stated on the regexp scan; for points with any other bytes the general forms literal_keys_rendered / patch_applied_at_literal_marker / replacer_order_irrelevant_literal hold (the last two for prefix-free key sets: with ')' in a point one key can extend another and the output depends on Go map order, docs/C12.md)")]
 
 
 def merge_stats(acc, st):
@@ -30,8 +30,9 @@ def merge_stats(acc, st):
 def run(ctx):
     exe = ctx.go_build("c12")
     ctx.partial = PARTIAL
-    ctx.trusted += ["translator harness/cmd/c12 extract (go/ast over generator/file_manager.go: insertReg literal; regexp/syntax shape check; plugin.InsertionPointFormat of the linked tree)",
-                    "correspondence harness harness/cmd/c12 run vs tv_c12 (in-process FileManager.Feed*/BuildResponse on seeded Feed histories)"]
+    ctx.trusted += ["translator harness/cmd/c12 extract (go/ast over generator/file_manager.go: insertReg literal; regexp/syntax shape check; plugin.InsertionPointFormat of the linked tree; go/ast over generator/golang/backend.go renderByTemplate: fields of the plugin.Generated literals)",
+                    "correspondence harness harness/cmd/c12 run vs tv_c12 (in-process FileManager.Feed*/BuildResponse on seeded Feed histories and on the item streams of the real Go backend)",
+                    "end-to-end stream (harness/cmd/c12/e2e.go): parser, semantic, GoBackend, Generator.Generate, Persist in process on IDL sets with colliding output names; go/parser as judge of the written files"]
     ctx.assumptions += ["regexp.FindAllString for <literal><ASCII class>*<byte not in class>: left-to-right scan, maximal class run (model: FileManager.scan/markerLen)",
                         "strings.NewReplacer(...).Replace with non-empty keys: at each position the first pair in argument order whose key is a prefix (model: FileManager.replace/lookupPrefix)",
                         "Go map range order is arbitrary; the model ranges in insertion order; Props.C12.replacer_order_irrelevant covers prefix-free key sets, the generator discards the others (point names containing ')')",
@@ -85,6 +86,9 @@ def run(ctx):
     if ctx.replay:
         return ctx.finish(rule="replay of one recorded Feed history (full proof obligations re-checked; the history is run on the implementation, the model and the oracle)")
     return ctx.finish(rule="Feed histories: the corpus of past failures (replays/C12-*.json) first, 17 fixed cases (the repo's pinned tests, the witnesses of the defect repaired by 54c21d0, marker corner cases), renaming chains "
+                           
                            "of length 2..14, then seeded random histories (1-4 calls, quick: <=12 items, thorough: <=40) over small per-history pools of "
                            "names (incl. <base>_<k><ext> shapes), contents (0..n markers, marker-like text) and points (in and outside the marker alphabet); "
-                           "non-trivial = has a patch or a repeated name; distinct by sha256 of the VL line")
+                           "non-trivial = has a patch or a repeated name; distinct by sha256 of the VL line. "
+                           "End-to-end stream: 1 fixed + 60 (thorough 600) seeded IDL sets of 2-3 files rendering to the same output name (with/without foreign "
+                           "imports, services, identical twins, a control file), generated and persisted by the real generator; the backend's item stream of each also runs through the correspondence")
